@@ -40,6 +40,8 @@ func init() {
 			{Name: "MAKE-SIGN", What: "every make() whose length is not a constant is shown non-negative (conversion from unsigned, len, dominating sign test, or at every call site for parameters)", Floor: 30, Run: ruleMakeSign},
 			{Name: "DIV-ZERO", What: "every integer division has a divisor shown non-zero on every path", Floor: 2, Run: ruleDivZero},
 			{Name: "NILRET", What: "no exported decoder/constructor returns a nil pointer result together with a nil error", Floor: 10, Run: ruleNilRet},
+			{Name: "ASSERT-CHECKED", What: "every type assertion without comma-ok in library code is behind a test of the same value for the same type, made from a value of that type, or in the reviewed table: an unchecked assertion on a value whose type the input chooses is a panic (added after eleventh-round seed C11-l)", Floor: 4, Run: ruleAssertChecked},
+			{Name: "CSV-FIELDS", What: "the premise IDX-CONST trusts in fai.ReadFrom: csv.Reader.FieldsPerRecord is a positive constant above every constant record index, set once, before the first Read (added after eleventh-round seed C11-k)", Floor: 1, Run: ruleCSVFields},
 			{Name: "PANIC-REACH", What: "every explicit panic in library code is in the reviewed table (caller contract / internal / recovered)", Floor: 15, Run: rulePanicReach},
 			{Name: "VAR-SLICE", What: "in the BAM record/aux decoders every variable slice bound is compared with the slice's length on a dominating edge", Floor: 6, Run: ruleVarSlice(varSliceFuncs)},
 			{Name: "LOOP-PROGRESS", What: "bam.parseAux's cursor advances by ≥ 1 on every path round its loop", Floor: 1, Run: ruleLoopProgress(loopProgressFuncs)},
